@@ -47,7 +47,7 @@ impl BCase {
 fn coordinates(a: f64, b: f64, thorough: bool) -> Vec<f64> {
     let w = b - a;
     let mut v = vec![a, b, next_up(a), next_down(a), next_up(b), next_down(b), a + w / 2.0, a + w / 3.0, a + 0.9 * w];
-    let ks: &[f64] = if thorough { &[0.25, 0.5, 1.0, 1.5, 2.0, 3.0, 10.0, 1e3, 2.5, 7.0, 100.0, 0.999, 1.001] } else { &[0.25, 0.5, 1.0, 1.5, 2.0, 3.0, 10.0, 1e3] };
+    let ks: &[f64] = if thorough { &[0.25, 0.5, 1.0, 1.5, 2.0, 3.0, 10.0, 1e3, 2.5, 7.0, 100.0, 0.999, 1.001, 1e5 + 0.25, 70000.5, 1e6 + 0.5, 3e6] } else { &[0.25, 0.5, 1.0, 1.5, 2.0, 3.0, 10.0, 1e3, 1e5 + 0.25] };
     for k in ks {
         v.push(a - k * w);
         v.push(b + k * w);
@@ -351,6 +351,8 @@ enum ICase {
     Perm(u32, usize),
     Bits(u32, usize, f64),
     Empty,
+    /// the second initialisation, executed on the same thread right after the first (of another size)
+    After(Box<ICase>, Box<ICase>),
 }
 
 type IObs = (Result<(), String>, Vec<usize>, Option<String>);
@@ -461,16 +463,24 @@ fn run_init(c: &ICase) -> IObs {
             let sizes = pops_of(&st).iter().map(|p| p.len()).collect();
             (r, sizes, None)
         }
+        ICase::After(first, second) => {
+            let _ = run_init(first);
+            run_init(second)
+        }
     }
 }
 
 fn check_init(c: &ICase, out: &Outcome<IObs>) -> Option<(String, String)> {
+    if let ICase::After(first, second) = c {
+        return check_init(second, out).map(|(s, d)| (format!("{} after-another-initialisation", s), format!("after {:?} on the same thread: {}", first, d)));
+    }
     let (name, k, below) = match c {
         ICase::Spread(k, _, _) => ("RandomSpread", *k as usize, 1),
         ICase::SpreadMixed(k, _) => ("RandomSpread", *k as usize, 1),
         ICase::Perm(k, _) => ("RandomPermutation", *k as usize, 0),
         ICase::Bits(k, _, _) => ("RandomBitstring", *k as usize, 0),
         ICase::Empty => ("Empty", 0, 0),
+        ICase::After(..) => unreachable!(),
     };
     let head = format!("C14 init={}", name);
     let ctx = |w: String| format!("{:?}: {}", c, w);
@@ -509,6 +519,15 @@ fn init_cases(thorough: bool) -> Vec<ICase> {
         for n in 1..=(if thorough { 5 } else { 4 }) {
             v.push(ICase::Perm(k, n));
         }
+        // an initialisation of another (larger, smaller, equal) size right before, on the same thread
+        if k > 0 {
+            for (n1, n2) in [(7usize, 4usize), (4, 7), (5, 5), (6, 1)] {
+                v.push(ICase::After(Box::new(ICase::Perm(2, n1)), Box::new(ICase::Perm(k, n2))));
+                v.push(ICase::After(Box::new(ICase::Bits(2, n1, 0.5)), Box::new(ICase::Bits(k, n2, 0.5))));
+                v.push(ICase::After(Box::new(ICase::Spread(2, n1.min(3), 0)), Box::new(ICase::Spread(k, n2.min(3), 1))));
+            }
+            v.push(ICase::After(Box::new(ICase::SpreadMixed(2, vec![3, 0, 3])), Box::new(ICase::SpreadMixed(k, vec![0, 2]))));
+        }
         // domains that differ between dimensions, with and without equal neighbours
         for doms in [vec![1usize, 1, 2], vec![0, 2], vec![2, 1, 1], vec![3, 0, 3], vec![1, 2, 2, 1]] {
             if k > 0 && (thorough || doms.len() <= 3) {
@@ -521,8 +540,8 @@ fn init_cases(thorough: bool) -> Vec<ICase> {
 
 pub fn run(rep: &mut Report) {
     let thorough = rep.tier == Tier::Thorough;
-    rep.alpha("initialisation: Empty, RandomSpread(k) x dimension 1..3 x 4 domains, RandomPermutation(k) x 1..5 positions, RandomBitstring(k, p in {0,1/2,1}); k in 0..3; all generator-word tapes over the first D draws");
-    rep.alpha("boundary repair: Saturation, Toroidal, Mirror, CompleteOneTailedNormalCorrection x domains [-1,2) [0,1) [-5,-3) [1e-3,1e3) x coordinates {a, b, their float neighbours, interior points, a - k*w, b + k*w for k in 1/4..10^3} plus mixed 3-d vectors; the resampling operator under all <= 1 (quick) / 2 (thorough) deviations of its generator words");
+    rep.alpha("initialisation: Empty, RandomSpread(k) x dimension 1..3 x 4 domains, RandomPermutation(k) x 1..5 positions, RandomBitstring(k, p in {0,1/2,1}); k in 0..3, each also right after an initialisation of another size on the same thread; all generator-word tapes over the first D draws");
+    rep.alpha("boundary repair: Saturation, Toroidal, Mirror, CompleteOneTailedNormalCorrection x domains [-1,2) [0,1) [-5,-3) [1e-3,1e3) x coordinates {a, b, their float neighbours, interior points, a - k*w, b + k*w for k in 1/4..10^5 (thorough: 3*10^6)} plus mixed 3-d vectors; the resampling operator under all <= 1 (quick) / 2 (thorough) deviations of its generator words");
     rep.assume("`inside the domain` means the closed interval [a, b] (the statement says `within the bounds`); tolerance 4 ulp of max(|a|,|b|,b-a)");
     rep.assume("non-termination is decided by a wall budget of 10 s per case in a worker subprocess (terminating cases take milliseconds)");
     let seed = rep.seed;
